@@ -25,10 +25,18 @@ func Unmarshal(result Result, value any, settings ...ContextApply) error {
 }
 
 func unmarshal(result Result, value any, settings ...ContextApply) error {
+	if value == nil {
+		return fmt.Errorf("unmarshal target is nil")
+	}
+
 	val := reflect.ValueOf(value)
 	typ := val.Type()
 
 	for typ.Kind() == reflect.Pointer {
+		if val.IsNil() {
+			return fmt.Errorf("unmarshal target must be a non-nil pointer")
+		}
+
 		val = val.Elem()
 		typ = typ.Elem()
 	}
@@ -36,6 +44,10 @@ func unmarshal(result Result, value any, settings ...ContextApply) error {
 	kind := typ.Kind()
 
 	if kind == reflect.Struct {
+		if !val.CanAddr() {
+			return fmt.Errorf("unmarshal target must be a non-nil pointer")
+		}
+
 		return unmarshalStruct(result, val.Addr(), settings...)
 	}
 
